@@ -236,6 +236,25 @@ def handleNew (t : List String) : String :=
     | _, _ => "bad-op"
   | _ => "bad-op"
 
+/-- `MerkleTree::from_raw_parts` on the nodes `build_merkle_nodes` computes, one dropped (`short`) or one
+    added (`long`): the two refusals first, then the documented assertion on the lengths -/
+def handleRaw (t : List String) : String :=
+  match t with
+  | [n, s, mode] =>
+    match u64? n, sd? s with
+    | some n, some s =>
+      if n > 8192 ∨ !(["ok", "short", "long"].contains mode) then "bad-op"
+      else
+        match leavesOf n s with
+        | none => "bad-op"
+        | some leaves =>
+          match Tree.new toy leaves with
+          | .ok tr => if mode == "ok" then s!"ok root={digStr tr.root} depth={tr.depth}" else "panic"
+          | .err e => "err:" ++ kindStr e
+          | .panic _ => "panic"
+    | _, _ => "bad-op"
+  | _ => "bad-op"
+
 /-- `tree`: the root and the checksum of the paths of all (or 256 evenly spaced) positions -/
 def handleTree (t : List String) : String :=
   match head? t with
@@ -457,6 +476,7 @@ def handle (toks : List String) : String :=
     else
       match op with
       | "new" => handleNew rest
+      | "raw" => handleRaw rest
       | "single" => handleSingle rest
       | "batch" => handleBatch rest
       | "paths" => handlePaths rest
